@@ -61,8 +61,20 @@ M = [
  ("quiet-presized-remove","*","stack.go","		var R stack = make(stack, 0)\n		R = append(R, cfg)\n\n		// Gather","		var R stack = make(stack, 0, r.len())\n		R = append(R, cfg)\n\n		// Gather"),
  ("quiet-new-config-field","*","cfg.go","	ord bool        // true = FIFO, false = LIFO (default); applies to stacks only","	ord bool        // true = FIFO, false = LIFO (default); applies to stacks only\n	gen uint64      // unused generation counter"),
  ("quiet-new-query-method","*","stack.go","func (r Stack) IsFull() (full bool) {","func (r Stack) IsBounded() bool { return r.IsInit() && r.cap() > 0 }\n\nfunc (r Stack) IsFull() (full bool) {"),
+ ("quiet-reverse-builds-new-slice","*","stack.go","	for i, j := 1, r.len()-1; i < j; i, j = i+1, j-1 {\n		(*r)[i], (*r)[j] = (*r)[j], (*r)[i]\n	}\n}","	n := make(stack, 0, r.len())\n	n = append(n, (*r)[0])\n	for i := r.len() - 1; i >= 1; i-- {\n		n = append(n, (*r)[i])\n	}\n	*r = n\n}"),
+ ("quiet-lock-stamp-kept-after-unlock","*","stack.go","			sc, _ := r.config()\n			sc.ldr = nil\n			mutex.Unlock()","			mutex.Unlock()"),
+ ("quiet-unmarshal-presized","*","stack.go","func (r stack) unmarshalDefault() (slices []any, err error) {\n	slices = append(slices, r.kind())","func (r stack) unmarshalDefault() (slices []any, err error) {\n	slices = make([]any, 0, r.len())\n	slices = append(slices, r.kind())"),
  ("quiet-new-guarded-mutator","*","stack.go","func (r Stack) IsFull() (full bool) {","func (r Stack) Truncate(n int) Stack {\n	if r.IsInit() && !r.getState(ronly) {\n		r.stack.lock()\n		defer r.stack.unlock()\n		if n >= 0 && n < r.stack.ulen() {\n			*r.stack = (*r.stack)[:n+1]\n		}\n	}\n	return r\n}\n\nfunc (r Stack) IsFull() (full bool) {"),
 ]
+import re
+def rename_fields(w):
+    for f in ("cfg.go","stack.go","cond.go","log.go","misc.go"):
+        p=os.path.join(w,f); s=open(p).read()
+        s=re.sub(r'\bldr\b','lockedAt',s); s=re.sub(r'\.enc\b','.encaps',s); s=re.sub(r'\benc ( *)\[\]\[\]string( +)// val','encaps\\1[][]string\\2// val',s)
+        s=re.sub(r'\.opt\b','.flags',s); s=re.sub(r'\bopt cfgFlag','flags cfgFlag',s)
+        s=re.sub(r'\.mtx\b','.mu',s); s=re.sub(r'\bmtx \*sync','mu *sync',s)
+        open(p,'w').write(s)
+SCRIPTED=[("quiet-rename-config-fields","*",rename_fields)]
 out = os.path.join(os.path.dirname(os.path.abspath(__file__)), "mutants")
 os.makedirs(out, exist_ok=True)
 tmp = tempfile.mkdtemp(prefix="mut")
@@ -75,6 +87,12 @@ try:
         if s.count(old)!=1:
             print("SKIP",name,"anchor count",s.count(old)); continue
         open(p,"w").write(s.replace(old,new,1))
+        d=subprocess.check_output(["git","-C",w,"diff"]).decode()
+        open(os.path.join(out,"%s.%s.diff"%(name,prop.replace('*','ALL'))),"w").write(d)
+        subprocess.check_call(["git","-C",w,"checkout","-q","--","."])
+        n+=1
+    for name,prop,fn in SCRIPTED:
+        fn(w)
         d=subprocess.check_output(["git","-C",w,"diff"]).decode()
         open(os.path.join(out,"%s.%s.diff"%(name,prop.replace('*','ALL'))),"w").write(d)
         subprocess.check_call(["git","-C",w,"checkout","-q","--","."])
